@@ -154,6 +154,15 @@ def generate(ctx):
                 args = {"by": by, "ascending": ascending, "na_position": na_position, "inplace": inplace}
             elif kind == "base":
                 asc = rng.random() < 0.5
+                if len(rows) >= 4 and i % 20 < 10:
+                    # the row with the smallest key already first, the one with the largest already last, the middle to be moved
+                    mid = list(range(1, len(rows) - 1))
+                    while mid == sorted(mid):
+                        rng.shuffle(mid)
+                    wv_ = [0] + mid + [len(rows) - 1]
+                    nf["w"] = pd.array(wv_ if asc else [len(rows) - 1 - v for v in wv_], dtype=pd.ArrowDtype(pa.int64()))
+                    before = fo.snapshot(nf, skip=("n",))
+                    whole = fo.snapshot(nf)
                 def run_b():
                     out = nf.sort_values("w", ascending=asc, na_position=na_position, kind="stable")
                     assert isinstance(out, NestedFrame)
@@ -184,8 +193,17 @@ def generate(ctx):
                     k1 = rng.choice(sortable)
                     by = [f"n.{k1}", f"m.{rng.choice([k1] + sortable)}"]
                 rng.shuffle(by)
-                res = attempt(lambda: nf.sort_values(by))
-                term = f"[true; {cq_bool(res[0] == 'err' and fo.snapshot(nf) == whole)}; true; true]"
+                if i % 40 == 8:
+                    # an argument error on a nested target, IN PLACE: refused, and the target is exactly as before (labels included)
+                    tgt = nf.copy()
+                    k1 = rng.choice(sortable)
+                    by = [f"n.{k1}"]
+                    bad = rng.choice([{"ascending": [True, False]}, {"na_position": "middle"}, {"key": lambda col: col.no_such_attribute}])
+                    res = attempt(lambda: tgt.sort_values(by, inplace=True, **bad))
+                    term = f"[true; {cq_bool(res[0] == 'err' and fo.snapshot(nf) == whole and fo.snapshot(tgt) == whole)}; true; true]"
+                else:
+                    res = attempt(lambda: nf.sort_values(by))
+                    term = f"[true; {cq_bool(res[0] == 'err' and fo.snapshot(nf) == whole)}; true; true]"
                 nontrivial = True
                 args = {"by": by}
             cases.append({
